@@ -21,7 +21,8 @@ META = dict(
          "reorg across the roll-over and a restart, comparing LookupFilter / LookupFilterHeader / LookupFilterRange / LookupFilterHashRange with recomputed filters.",
     note="MuHash arithmetic and the GCS byte encoding are observed for agreement only (element *sets* and UTXO *sets* come from the model). Index sync is driven "
          "synchronously (Sync(), queue drained after every step); a restart in the middle of a sync is reached as 'index stopped, chain moves on, index "
-         "re-created from its committed locator'. The universe has three script classes, so filter element sets are small. Known weakness (reported, see "
+         "re-created from its committed locator'. The universe has three script classes, so filter element sets are small. The block filter index used to refuse to start after such a restart (fixed in /repo c07c1d6, "
+         "seeded_selftest/C21/m0_revert_filterindex_init_fix.diff brings the defect back). Known weakness (reported, see "
          "known findings): the spender index erases/writes entries immediately while its locator is only committed behind the flushed chainstate, so after "
          "a re-creation over an uncommitted database it can miss or misreport the active spender; the spender clauses are enforced on all other histories.",
     technique="TLA+ spec Index (operational indexes vs from-scratch F over UtxoChain) + TLC exhaustive/simulation + behaviour replay on real index classes",
@@ -123,11 +124,11 @@ def run(ctx):
     tests = directed + tests
     if not quick:
         # the two spender clauses fail after a restart over an uncommitted database: re-derive the counterexamples
-        for cfg, inv in (("MC_unclean_stale.cfg", "SpenderNoStale"), ("MC_unclean_missing.cfg", "SpenderAgrees"), ("MC_unclean_initfail.cfg", "NoFilterInitFailure")):
+        for cfg, inv in (("MC_unclean_stale.cfg", "SpenderNoStale"), ("MC_unclean_missing.cfg", "SpenderAgrees")):
             rr = ctx.tlc("Index", "MC_index", cfg, name=cfg[:-4], expect_violation=True, emit=False, timeout=2400)
             if rr.violated != inv:
                 raise vflib.InfraError("expected TLC to re-derive the counterexample to %s, got %s" % (inv, rr.violated))
-        ctx.extra["counterexamples_rederived"] = ["SpenderNoStale", "SpenderAgrees", "NoFilterInitFailure"]
+        ctx.extra["counterexamples_rederived"] = ["SpenderNoStale", "SpenderAgrees"]
     upath = os.path.join(ctx.work, "universe.json")
     json.dump(universe, open(upath, "w"))
     per_action = collections.Counter()
